@@ -212,7 +212,7 @@ package internal
 //@ spec func lifeUpper(h http.Header, status int, hs Arr[string, bool], vs Arr[string, string], date time.Time) time.Duration = lifeUpperV(hget(h, "Expires"), hget(h, "Last-Modified"), status, hs, vs, date)
 //@ spec func reqCap(l time.Duration, hq Arr[string, bool], vq Arr[string, string]) time.Duration = ite(ccValidA(hq, vq, "max-age"), min(l, ccDurA(vq, "max-age")), l)
 //@ spec func minFreshOK(age time.Duration, life time.Duration, hq Arr[string, bool], vq Arr[string, string]) bool = !ccValidA(hq, vq, "min-fresh") || satadd(age, ccDurA(vq, "min-fresh")) <= life
-//@ spec func maxStaleOK(age time.Duration, life time.Duration, hq Arr[string, bool], vq Arr[string, string]) bool = hq["max-stale"] && (vq["max-stale"] == "" || (isDigits(vq["max-stale"]) && satsub(age, life) <= ccDurA(vq, "max-stale")))
+//@ spec func maxStaleOK(age time.Duration, life time.Duration, hq Arr[string, bool], vq Arr[string, string]) bool = hq["max-stale"] && (vq["max-stale"] == "" || (isDigits(unquote(vq["max-stale"])) && satsub(age, life) <= ccDurA(vq, "max-stale")))
 
 //@ func isHeuristicallyCacheableCode
 //@   property C01 C06 C09
@@ -299,7 +299,6 @@ package internal
 //@   assigns cell(jump$1)
 //@ extern strings.Cut(s, sep)
 //@   pure
-
 
 // unquote = ParseQuotedString (RFC 9110 §5.6.4); a no-cache directive is qualified iff its unquoted argument is non-empty
 //@ spec func unquote(s string) string
